@@ -4,8 +4,12 @@
    by harness/engine/termbytes.py and applied to the Terminal model here (specs/common/Terminal.tla, as C15 does).
 
    event (every event carries every key):
-     op    "new" (w: terminal width, dec: the Output is decorated - FALSE: a PlainFormatter, also on a stream that
-           itself reports ANSI support, as with --no-ansi on a terminal) | "op"
+     op    "new" (w: terminal width; fk: formatter kind plain | ansi | forced, sa: the stream reports ANSI support)
+           | "rewire" (fk: the formatter kind every section and the parent were given by set_formatter)
+           | "op"
+           The outputs are decorated iff the formatter forces ANSI, or uses it and the stream supports it (a
+           PlainFormatter never - also on a stream that reports ANSI support, as with --no-ansi on a terminal), whether
+           the formatter came with the constructor or by set_formatter.
      what  the operation (key of the clause): line | overwrite | clear | clearn | scope-line ...
      line  the text the operation writes (1-character strings, no blanks, unique per trace), <<>> if none
      ind   the indentation in force on that section for that line
@@ -20,21 +24,28 @@ EXTENDS Terminal, TraceKit
 VARIABLES tid, l,
           term,      \* the terminal as the bytes so far leave it
           written,   \* set of [t, i]: line texts written so far with their indentation
-          dec        \* the output under test is decorated
-tvars == <<tid, l, term, written, dec>>
+          dec,       \* the outputs under test are decorated (P: decided from the pair in place)
+          sa         \* their stream reports ANSI support
+tvars == <<tid, l, term, written, dec, sa>>
 T == Traces[tid]
 Ev == T[l]
 
-TInit == tid \in 1..NTraces /\ l = 1 /\ term = TermNew(80) /\ written = {} /\ dec = TRUE
+TInit == tid \in 1..NTraces /\ l = 1 /\ term = TermNew(80) /\ written = {} /\ dec = TRUE /\ sa = FALSE
 Adv == l' = l + 1 /\ tid' = tid
 Is(op) == l <= Len(T) /\ Ev.op = op
 
+PDecorated(k, a) == k = "forced" \/ (k = "ansi" /\ a)        \* as Markup!PDecorated
+
+TRewire == /\ Is("rewire") /\ Adv /\ UNCHANGED <<term, written, sa>>
+           /\ Check(tid, l, "P.config.settable", "set_formatter:" \o Ev.res, Ev.res = "ok")
+           /\ dec' = PDecorated(Ev.fk, sa)
+
 TNew == /\ Is("new") /\ Adv
         /\ Check(tid, l, "P.route.exists", "sections:" \o Ev.res, Ev.res = "ok")
-        /\ term' = TermNew(Ev.w) /\ written' = {} /\ dec' = Ev.dec
+        /\ term' = TermNew(Ev.w) /\ written' = {} /\ sa' = Ev.sa /\ dec' = PDecorated(Ev.fk, Ev.sa)
 
 RowOK(row, ws) == \E x \in ws : row = Blanks(x.i) \o x.t
-TOp == /\ Is("op") /\ Adv /\ UNCHANGED dec
+TOp == /\ Is("op") /\ Adv /\ UNCHANGED <<dec, sa>>
        /\ LET e == Ev
               ws == IF e.line = <<>> THEN written ELSE written \cup {[t |-> e.line, i |-> e.ind]}
           IN /\ Check(tid, l, "H.line", "", \A k \in 1..Len(e.line) : e.line[k] # Blank)
@@ -50,8 +61,8 @@ TOp == /\ Is("op") /\ Adv /\ UNCHANGED dec
                      /\ Check(tid, l, "P.indent.screen", e.what \o ":" \o e.res, e.res = "ok")
                      /\ Note(tid, l, "A.ops.known", FALSE)
 
-TDone == /\ l = Len(T) + 1 /\ l' = l + 1 /\ tid' = tid /\ UNCHANGED <<term, written, dec>> /\ Accept(tid)
+TDone == /\ l = Len(T) + 1 /\ l' = l + 1 /\ tid' = tid /\ UNCHANGED <<term, written, dec, sa>> /\ Accept(tid)
 
-TNext == TNew \/ TOp \/ TDone
+TNext == TNew \/ TRewire \/ TOp \/ TDone
 TSpec == TInit /\ [][TNext]_tvars
 =============================================================================
